@@ -72,11 +72,32 @@ HISTORY = {  # what had to be strengthened before the change was caught (filled 
     "C13n": "missed at first: no time-of-day cells -> cells with number format h:mm:ss and a serial in [0,1), claimed as HH:MM:SS",
     "C14m": "missed at first: text never ended in an escaped backslash right before \\page -> a quarter of the page breaks follow 'C:\\temp\\' directly",
     "C14n": "missed at first: ODF frames were always 2cm x 2cm and their pixel size unclaimed -> sizes in cm, in, mm, pt and pc (quarter inches, exact in every unit), claimed at 96 dpi",
+    "C01o": "missed at first: references between parts never left the container -> EPUBs whose manifest hrefs climb above the root (one, two, three levels), are absolute, or walk through dot segments; mutation xml_href_climb for every ZIP format (which also exposed that dot-segment hrefs were not resolved at all: fixed in the repository)",
+    "C01p": "missed at first: a diagnostic that spans two lines was still 'one diagnostic' (only lines starting with the program name were counted) and no member name held a line break -> the diagnostic is the program-name line plus whatever follows it; mutations member_names_ctrl and bomb_member_named",
+    "C02o": "missed at first: no .eml documents in the document family -> eml builder: one part, several inline text/plain parts in every transfer encoding (base64 / quoted-printable parts without a final line break), alternative",
+    "C03o": "missed at first: every mailbox message had its own Message-ID -> a fifth without any, a tenth repeating the previous one",
+    "C04o": "missed at first: generated HTML was UTF-8 with one declaration form, and each feature was drawn with one seed only -> feature legacy-charset-declared (eight legal meta forms, four charsets, non-ASCII properties) and 3-11 extra seeds per feature for the property comparison",
+    "C04p": "missed at first: every ODF picture name had a known image extension -> an eighth of the pictures stored as 'ObjectReplacements/Object N', '.met' or without extension (type unclaimed, the str contract of get_content_type() applies)",
+    "C05o": "missed at first: the path argument was always a str naming an existing file -> str / pathlib.Path / PurePosixPath, existing and non-existing, URL-like, None",
+    "C05p": "not reported by C05 (its comparisons are taken back-to-back by design); caught by C06's observer oracles (to_json changed by get_full_text)",
+    "C08p": "missed at first: no manifest had a DOCTYPE line -> plain and encrypted DOCTYPE manifests, with a marker word in a member path",
+    "C13o": "missed at first: merges covered one cell -> feature wide-merge (3-4 columns, covered cells as one repeated element, a value to the right)",
+    "C13p": "missed at first: nested tables sat directly in the cell -> feature nested-table-in-sdt (w:tc/w:sdt/w:sdtContent/w:tbl, a table after it; count of tables claimed)",
+    "C14o": "missed at first: no ODS placed one picture part twice -> feature shared-picture (a logo on every sheet next to a picture of the sheet's own)",
 }
-# changes the quick tier missed when they arrived (rounds 4 to 6, from the campaign logs); what was widened is in DESIGN §19-§20
+# a change that is not a violation under every admissible reading of the property text: the check admits both readings, by design
+DISPUTED = {
+    "C11m": "the entry-count clause counts only non-directory records: the statement says 'rejected exactly when the entry count ... exceeds its limit' and also 'Directory entries are "
+            "ignored'. Read literally the second sentence covers the count as well, so the changed tree conforms under one reading and the unchanged tree under the other; neither the README nor "
+            "the ZipBombLimits docstring settles it. The reference predicate of C11 admits both counts where they differ (951 vectors per quick run are of that kind), because demanding the "
+            "unchanged tree's count would demand more than the property states.",
+}
+# changes the quick tier missed when they arrived (rounds 4 to 8, from the campaign logs); what was widened is in DESIGN §19-§20
 MISSED_ON_ARRIVAL = set("""C01g C01h C02h C03g C04g C04h C05g C05h C08g C08h C09g C09h C10h C11g C12g C12h C13h C14g C14h C16g C16h C19g C07h C15g
 C01i C01j C02i C03i C03j C04j C05i C05j C06i C06j C07j C08i C08j C09j C10i C10j C11i C12i C12j C13i C13j C14i C14j C15i C16j C17j C19j
-C01k C02k C02l C04k C04l C05k C08l C13k C13l C06l C07k C09l C10l C12k C12l C14k C14l C15k C15l C16k C16l C17k C20k""".split())
+C01k C02k C02l C04k C04l C05k C08l C13k C13l C06l C07k C09l C10l C12k C12l C14k C14l C15k C15l C16k C16l C17k C20k
+C01m C01n C03m C03n C13m C13n C14m C14n C06n C07n C09n C10n C11m C11n C16m C16n C17m C12m C12n C15m C15n C19m
+C01o C01p C02o C03o C04o C04p C05o C05p C08p C13o C13p C14o""".split())
 
 
 def history_for(sid):
@@ -167,6 +188,8 @@ def main():
             meta["history"] += " | NEUTRALISED: a later fix: commit of the repository removed the mechanism the change relied on; its demonstration now passes with the patch applied, so there is nothing left to catch"
         else:
             meta["still_breaks_property"] = True
+        if sid in DISPUTED:
+            meta["disputed"] = DISPUTED[sid]
         json.dump(meta, open(f"{dst}/meta.json", "w"), indent=1)
         print(sid, "caught by", caught or ("NOBODY" if meta["still_breaks_property"] else "n/a (neutralised)"), "| demo", meta["confirmed"]["demo_on_unchanged_tree_exit"], meta["confirmed"]["demo_with_patch_exit"], "| tests", meta["confirmed"]["repository_tests_with_patch"], flush=True)
 
